@@ -234,8 +234,11 @@ class Ctx:
         self.assumptions.append(f)
 
     def _check(self, extra, timeout_ms):
-        s = z3.Solver()
+        # in-process calls use E-matching only (no model-based instantiation): z3's wall-clock timeout is
+        # not reliable inside MBQI, and an in-process hang cannot be killed
+        s = z3.SimpleSolver()
         s.set("timeout", int(timeout_ms))
+        s.set("smt.mbqi", False)
         s.add(*self.axioms)
         s.add(*self.assumptions)
         s.add(*extra)
@@ -405,9 +408,10 @@ def discharge(assumptions, goal, timeout_ms, name="ob"):
     import os
     import subprocess
     import tempfile
-    s = z3.Solver()
+    s = z3.SimpleSolver()
     quick = min(2000, int(timeout_ms))
     s.set("timeout", quick)
+    s.set("smt.mbqi", False)
     s.add(*assumptions)
     s.add(z3.Not(goal))
     r = s.check()
@@ -593,6 +597,7 @@ class Enum:
             e.cnt = ctx.fresh("cnt", INT)
             e.idx = ctx.fresh_fn("idx", INT, INT)
             e.rk = ctx.fresh_fn("rk", INT, INT)
+            e.cb = ctx.fresh_fn("cntbelow", INT, INT)    # number of selected positions below i (0 <= i <= n)
         finally:
             ctx.loop_vars = saved
         j, j2, i = z3.Ints("j!ax j2!ax i!ax")
@@ -615,6 +620,8 @@ class Enum:
                       patterns=[z3.MultiPattern(e.rk(i), e.rk(j))]),
             z3.Implies(z3.ForAll([i], z3.Implies(z3.And(0 <= i, i < nn), gi)), e.cnt == z3.If(nn >= 0, nn, 0)),
         ]
+        ax += [e.cb(0) == 0, z3.Implies(nn >= 0, e.cb(nn) == e.cnt),
+               z3.ForAll([i], z3.Implies(z3.And(0 <= i, i < nn, gi), e.rk(i) == e.cb(i)), patterns=[e.rk(i)])]
         if is_global:
             ctx.axioms.extend(ax)
             cache[key] = (e, None, None)
@@ -622,7 +629,36 @@ class Enum:
             pos = len(ctx.assumptions)
             ctx.assumptions.extend(ax)
             cache[key] = (e, pos, ax[0])
+        Enum.link_equivalent(ctx, e, cache)
         return e
+
+    def unfold(self, i):
+        """Instance of the recursive definition of cntbelow at position i (definitional axiom)."""
+        nn = zint(self.n)
+        return z3.Implies(z3.And(0 <= i, i < nn),
+                          z3.And(self.cb(i + 1) == self.cb(i) + z3.If(zbool(self.g(i)), 1, 0), self.cb(i) >= 0, self.cb(i) <= i))
+
+    @staticmethod
+    def link_equivalent(ctx, e, cache):
+        """Uniqueness of enumerations (meta-lemma, by induction on the range): two increasing enumerations
+        of extensionally equal predicates over the same range coincide.  Applied only when the equivalence
+        of the predicates is *proved* under the current assumptions."""
+        kf = z3.Int(ctx.fresh_name("k!lnk"))
+        for key, (e1, pos, first) in list(cache.items()):
+            if e1 is e:
+                continue
+            if pos is not None and not (pos < len(ctx.assumptions) and ctx.assumptions[pos] is first):
+                continue
+            same = z3.And(zint(e1.n) == zint(e.n),
+                          z3.Implies(in_range(kf, e.n), zbool(e1.g(kf)) == zbool(e.g(kf))))
+            if ctx.valid(same, 1500):
+                j, i = z3.Ints("j!ax i!ax")
+                ctx.assumptions.append(e1.cnt == e.cnt)
+                ctx.assumptions.append(z3.ForAll([j], e1.idx(j) == e.idx(j), patterns=[e1.idx(j)]))
+                ctx.assumptions.append(z3.ForAll([j], e1.idx(j) == e.idx(j), patterns=[e.idx(j)]))
+                ctx.assumptions.append(z3.ForAll([i], e1.rk(i) == e.rk(i), patterns=[e1.rk(i)]))
+                ctx.assumptions.append(z3.ForAll([i], e1.rk(i) == e.rk(i), patterns=[e.rk(i)]))
+                ctx.used_models.add("meta-lemma: increasing enumerations of equivalent predicates over one range coincide")
 
 
 def occurs(const, term):
